@@ -88,8 +88,10 @@ def light_binding(vh, scr, seed, quick):
         f1 = ex.submit(export_graph, scr, 4 if quick else 5)
         f2 = ex.submit(export_graph, scr, 3, "McThr", "export-thr", "McListsBig")
         f3 = ex.submit(export_graph, scr, 3, "McNoThr", "export-pre", "McLists", ALLPRE)
+        # thresholds set before / between registrations, nodes already there: the graph of a type may be created by a threshold setter
+        f4 = ex.submit(export_graph, scr, 2, "McThr", "export-prethr", "McLists", ALLPRE)
         reps = []
-        for tag, f, sd in (("graph", f1, seed), ("graph-thr", f2, seed + 1), ("graph-pre", f3, seed + 3)):
+        for tag, f, sd in (("graph", f1, seed), ("graph-thr", f2, seed + 1), ("graph-pre", f3, seed + 3), ("graph-prethr", f4, seed + 4)):
             g = must_pass(f.result(), "registry export " + tag)
             reps.append((tag, replay(vh, scr, sd, edges=g.out_path, tag=tag), g))
     return reps
